@@ -11,7 +11,11 @@ Three tables are read from the source as it is NOW:
 * `effects`   for every function on a shutdown / close path (list FUNCTIONS below) the ordered list of
               "cancel:<receiver>" (a call `<receiver>.cancel()`, loop variables replaced by `<iterable>[*]`)
               and "call:<dotted name>" (every other call through `self`, a loop variable or a local).
-              A `.cancel()` whose receiver cannot be resolved raises.
+              Effects inside an `except asyncio.CancelledError:` handler are prefixed `oncancel:` (what the
+              function does when it is itself cancelled); `asyncio.gather(*<tasks>)` is recorded as
+              `gather:<tasks>`.  A `.cancel()` whose receiver cannot be resolved raises; a local that is
+              re-bound by a tuple assignment of a shape other than `done, X = await asyncio.wait(X, ...)`
+              loses its binding (a later `.cancel()` through it then raises).
 
 The hand-written inventory (`Model/Session.lean`, `Site`, `Site.key`, `Site.path`) is checked against these
 tables by `decide` obligations in `Props/C16.lean`.
@@ -39,6 +43,8 @@ FUNCTIONS = [
     ('network/network.py', 'Network.stop_server_connection_watchdog'),
     ('network/network.py', 'Network.stop_upnp_job'),
     ('network/network.py', 'Network._create_peer_connection_race'),
+    ('network/network.py', 'Network._make_direct_connection'),
+    ('network/network.py', 'Network._make_indirect_connection'),
     ('network/connection.py', 'DataConnection.disconnect'),
     ('network/connection.py', 'DataConnection._cancel_queued_messages'),
     ('network/connection.py', 'DataConnection.stop_reader_task'),
@@ -223,9 +229,51 @@ def _effects(fn) -> list[str]:
         else:
             raise TranslateError(f'loop target of unknown shape: {ast.unparse(tgt)}')
 
+    prefix = ['']
+
+    def emit(e: str):
+        out.append(prefix[0] + e)
+
+    def is_cancelled_handler(h: ast.ExceptHandler) -> bool:
+        return h.type is not None and ast.unparse(h.type) in ('asyncio.CancelledError', 'CancelledError')
+
     def walk(node):
         if isinstance(node, (ast.FunctionDef, ast.AsyncFunctionDef, ast.Lambda)) and node is not fn:
             return      # nested definitions are not executed here
+        if isinstance(node, ast.Try):
+            for s_ in node.body:
+                walk(s_)
+            for h in node.handlers:
+                if is_cancelled_handler(h):
+                    if prefix[0]:
+                        raise TranslateError(f'{fn.name}: nested CancelledError handlers')
+                    prefix[0] = 'oncancel:'
+                    for s_ in h.body:
+                        walk(s_)
+                    prefix[0] = ''
+                else:
+                    for s_ in h.body:
+                        walk(s_)
+            for s_ in node.orelse + node.finalbody:
+                walk(s_)
+            return
+        if isinstance(node, ast.Assign) and len(node.targets) == 1 and isinstance(node.targets[0], (ast.Tuple, ast.List)):
+            walk(node.value)
+            names = [e.id for e in node.targets[0].elts if isinstance(e, ast.Name)]
+            val = node.value.value if isinstance(node.value, ast.Await) else node.value
+            waited = None
+            if isinstance(val, ast.Call) and ast.unparse(val.func) == 'asyncio.wait' and val.args and \
+                    isinstance(val.args[0], ast.Name):
+                waited = val.args[0].id
+            for i, nm in enumerate(names):
+                if waited is not None and len(names) == 2 and i == 1 and nm == waited:
+                    continue        # `done, X = await asyncio.wait(X, ...)`: X stays a subset of itself
+                if waited is not None and len(names) == 2 and i == 0 and waited in locals_:
+                    locals_[nm] = locals_[waited]      # `done` is a subset of X as well
+                    continue
+                locals_.pop(nm, None)
+                loopvars.pop(nm, None)
+            return
         if isinstance(node, (ast.For, ast.AsyncFor)):
             walk(node.iter)
             bind_target(node.target, subst(node.iter) + '[*]')
@@ -262,10 +310,18 @@ def _effects(fn) -> list[str]:
                 if name == 'cancel':
                     if not resolvable(node.func.value):
                         raise TranslateError(f'{fn.name}: cannot resolve the receiver of `{ast.unparse(node)}`')
-                    out.append('cancel:' + subst(node.func.value))
+                    emit('cancel:' + subst(node.func.value))
+                elif ast.unparse(node.func) == 'asyncio.gather':
+                    if len(node.args) == 1 and isinstance(node.args[0], ast.Starred) and \
+                            isinstance(node.args[0].value, ast.Name) and \
+                            (node.args[0].value.id in locals_ or node.args[0].value.id in loopvars):
+                        emit('gather:' + subst(node.args[0].value))
                 elif resolvable(node.func.value) and name not in ('append', 'extend', 'info', 'debug', 'warning',
                                                                   'values', 'items', 'keys', 'set', 'is_set'):
-                    out.append('call:' + subst(node.func))
+                    emit('call:' + subst(node.func))
+            return
+        if isinstance(node, ast.Raise) and node.exc is None and prefix[0]:
+            emit('reraise')
             return
         for child in ast.iter_child_nodes(node):
             walk(child)
